@@ -103,6 +103,45 @@ def check_file(path, timeout=900):
     return p.returncode, p.stdout
 
 
+def recheck(force=False):
+    """thorough tier: replay every compiled module of the project through `leanchecker` (the
+    toolchain's independent re-checker of .olean files); cached on the hash of the Lean sources.
+    Returns the list of modules re-checked.  Raises ProofBroken if the re-checker rejects one."""
+    os.makedirs(WORK, exist_ok=True)
+    cache = os.path.join(WORK, 'recheck.json')
+    h = source_hash()
+    if not force and os.path.exists(cache):
+        try:
+            with open(cache) as fh:
+                c = json.load(fh)
+            if c.get('hash') == h:
+                return c['modules']
+        except Exception:
+            pass
+    lib = os.path.join(LEAN_DIR, '.lake', 'build', 'lib', 'lean')
+    mods = []
+    for base, dirs, files in os.walk(os.path.join(lib, 'Continuum')):
+        for f in sorted(files):
+            if f.endswith('.olean'):
+                rel = os.path.relpath(os.path.join(base, f), lib)[:-len('.olean')]
+                mods.append(rel.replace(os.sep, '.'))
+    mods.sort()
+    if not mods:
+        raise ProofBroken('leanchecker: no compiled modules found', lib)
+    try:
+        p = subprocess.run(['lake', 'env', 'leanchecker'] + mods, cwd=LEAN_DIR, env=_env(), stdout=subprocess.PIPE,
+                           stderr=subprocess.STDOUT, timeout=3000, text=True)
+    except subprocess.TimeoutExpired:
+        raise LeanError('leanchecker timed out')
+    except FileNotFoundError:
+        raise LeanError('leanchecker not on PATH')
+    if p.returncode != 0 or 'exception' in p.stdout or 'error' in p.stdout.lower():
+        raise ProofBroken('leanchecker rejects the compiled library', p.stdout[-3000:])
+    with open(cache, 'w') as fh:
+        json.dump({'hash': h, 'modules': mods}, fh)
+    return mods
+
+
 _AX_RE = re.compile(r"'([^']+)' depends on axioms: \[([^\]]*)\]|'([^']+)' does not depend on any axioms")
 
 
